@@ -752,6 +752,39 @@ def nested_chain_cases(seed, n):
         yield (f"script-{seed}-nest{i}-d{d}", e.ops)
 
 
+def rescue_cases(seed, n):
+    """C10: a dying owner's destructor rescues one of its adoptees (clones its own field into the program); the
+    survivor is then linked into a new ring and released — whatever the zero-count purge left behind shows up"""
+    rng = random.Random(seed ^ 0x4E5C)
+    for i in range(n):
+        e = Est()
+        extra = rng.randint(0, 2)
+        for _ in range(3 + extra):
+            e.new()
+        e.edge(0, 1)                      # head -> mid
+        e.edge(1, 2)                      # mid -> leaf (mid has links of its own)
+        for x in range(3, 3 + extra):
+            e.edge(0, x) if rng.random() < 0.5 else e.edge(x, 1)
+        if rng.random() < 0.5:
+            e.downgrade(e.find_root(0))
+        e.raw(f"setScript {e.find_root(0)} cloneField {rng.randrange(2)}" + ("; counts 0" if rng.random() < 0.3 else ""))
+        for o in (2, 1):
+            e.drop(e.find_root(o))
+        e.drop(e.find_root(0))            # head dies on the zero-count path; its destructor rescues a field
+        # the rescued handle is the last root; take mid's handle to leaf out (with unadopt) and close a ring
+        r = len(e.roots)                  # index of the rescued handle (the estimate does not know about it)
+        e.raw(f"unlink {r} 0")            # roots: …, mid, leaf
+        e.raw(f"clone {r}")               # …, mid, leaf, mid'
+        e.raw(f"link {r + 2} {r + 1}")    # leaf adopts mid
+        e.raw(f"clone {r + 1}")           # …, mid, leaf, leaf'
+        e.raw(f"link {r + 2} {r}")        # mid adopts leaf: a ring
+        e.raw(f"counts {r}")
+        e.roots = []                      # the estimate is no longer meaningful; cleanup drops whatever is left
+        for _ in range(6):
+            e.raw("drop 0")
+        yield (f"script-{seed}-rescue{i}", e.ops)
+
+
 def stream_panic(seed, n, max_obj=4):
     rng = random.Random(seed ^ 0x9A71C)
     for i in range(n):
